@@ -344,12 +344,18 @@ int sqfs_dir_reader_resolve_path(sqfs_dir_reader_t *rd, const char *path,
 			if (ret > 0)
 				return SQFS_ERROR_NO_ENTRY;
 
+			/*
+			  The component has to be as long as the name is on
+			  disk. Comparing strings alone is not enough: a name
+			  with a null byte in it would match a shorter
+			  component, and path[len] lies behind the string.
+			 */
 			len = ent->size + 1;
-			ret = strncmp((const char *)ent->name, path, len);
+			ret = (strcspn(path, "/") == len &&
+			       memcmp(ent->name, path, len) == 0) ? 0 : 1;
 			sqfs_free(ent);
 
-			if (ret == 0 &&
-			    (path[len] == '/' || path[len] == '\0')) {
+			if (ret == 0) {
 				path += len;
 				break;
 			}
